@@ -15,7 +15,7 @@ TCatch == Ev("AfterCatch") /\ AfterCatch(R.i, R.caught = 1, R.val, Ctx(R.depth, 
 TEnd == Ev("End") /\ End
 TRep == Ev("Reported") /\ Reported(R.fault)
 TPoll == Ev("Poll") /\ Poll(R.regs)
-TProbe == Ev("Probe") /\ Probe(R.c1, R.c2, R.sum, R.chain, R.dt, R.depthOk)
+TProbe == Ev("Probe") /\ Probe(R.c1, R.c2, R.sum, R.chain, R.dt, R.ns, R.depthOk)
 TraceNext == TReset \/ TArm \/ TBegin \/ TEnter \/ TLeave \/ TRaise \/ TCatch \/ TEnd \/ TRep \/ TPoll \/ TProbe
 TraceInit == Init /\ l = 1
 TraceSpec == TraceInit /\ [][TraceNext]_tvars
